@@ -70,7 +70,8 @@ def generate_for(prop, rng):
               "steer_bias": weighted(rng, [("uniform", 2), ("switch_early", 2)])}
     ops = []
     if rng.random() < 0.3:
-        kinds = [("fit", 3), ("score", 2), ("predict", 1.5), ("set_params", 3), ("fit_no_kernel", 2), ("score_no_kernel", 2), ("bad_fit", 1)]
+        kinds = [("fit", 3), ("score", 2), ("predict", 1.5), ("set_params", 3), ("fit_no_kernel", 2), ("score_no_kernel", 2), ("bad_fit", 1),
+                 ("crash_fit", 2)]
         for _ in range(rng.randint(1, 4)):
             k = weighted(rng, kinds)
             op = {"op": k, "data": rng.randrange(2)}
@@ -81,6 +82,10 @@ def generate_for(prop, rng):
                                             ["min_samples_split", max(2, 2 * msl + rng.randint(0, 3))], ["verbose", True]])
             if k == "bad_fit":
                 op["bad"] = choice(rng, [["max_clusters", 0], ["min_samples_split", 1], ["min_samples_leaf", 0]])
+            if k == "crash_fit":
+                # an earlier fit of the same object is interrupted when the k-th source line of the library is about to run
+                import math
+                op["crash"] = {"seam": "line", "at": int(math.exp(rng.uniform(0.0, math.log(3000))))}
             ops.append(op)
     ops.append({"op": "fit", "data": 0})
     cfg["n2"] = n if rng.random() < 0.5 else rng.randint(2, 14)
@@ -579,6 +584,15 @@ def execute_for(prop, record):
                             name, val = op["change"]
                             model.set_params(**{name: val})
                             cur[name] = val
+                        elif kind == "crash_fit":
+                            from ..seams import LineCrash
+                            world.split_hook = None
+                            try:
+                                with LineCrash(op["crash"]["at"], log, res):
+                                    model.fit(X, A if cur["kernel"] == "precomputed" else None)
+                                res.probe("prefix_crash_fit_completed")
+                            except SimFault:
+                                res.probe("prefix_crash_fit_crashed")
                         elif kind == "bad_fit":
                             name, val = op["bad"]
                             old = model.get_params()[name]
